@@ -219,6 +219,19 @@ def run(prog, rep, tier, repo):
                     continue
                 verdicts.append((op, show(cn), v))
         if not verdicts:
+            # std adaptors: Iterator::min_by / min_by_key return the FIRST of several equal minima, max_by / max_by_key the LAST of several
+            # equal maxima (documented behaviour of core::iter): an index taken from max_by is the last occurrence
+            adaptors = [short(c.path) for g in bodies for c in g.calls() if c.path and c.path.startswith('std::iter::Iterator::') and
+                        short(c.path) in ('min_by', 'max_by', 'min_by_key', 'max_by_key')]
+            rev = any(short(c.path) == 'rev' for g in bodies for c in g.calls() if c.path and c.path.startswith('std::iter::'))
+            if adaptors and not rev:
+                lastish = [a_ for a_ in adaptors if a_.startswith('max')]
+                if lastish:
+                    rep.viol('first-occurrence', key, '%s takes its index from Iterator::%s, which returns the last of several equal maxima: ties yield the last '
+                             'occurrence, not the first' % (name, lastish[0]), site_of(f0.body))
+                else:
+                    rep.ok('first-occurrence', key, 'index from Iterator::%s, which returns the first of several equal minima' % adaptors[0])
+                continue
             rep.undecided('first-occurrence', key, 'no replacement guarded by a comparison of an element with the running extremum recognised', site_of(f0.body), proof=False)
             continue
         bad = [vd for vd in verdicts if vd[0] != want]
